@@ -10,7 +10,7 @@ from .. import gen, build, mcase, monitors, oracles
 from ..mapmodel import MapModel
 
 ID = "C02"
-CASES = {"quick": 2400, "thorough": 200000}
+CASES = {"quick": 8000, "thorough": 200000}
 MIN_CASES_PER_SHARD = 40
 CASE_TIMEOUT = 40
 RULE = ("one case = generated map x trace x configuration (both families, edge-only and node-and-edge states, non-emitting on in 70 %, "
@@ -74,6 +74,6 @@ def check_case(ctx, case):
 
 
 TECHNIQUE = "runtime monitoring: independent re-scoring of the reported best path (documented formulas) after every call of generated operation histories"
-LEVEL_TEXT = ("2.4k (quick) / 200k (thorough) operation histories; every reported best path (~2 per history, ~6 states each, non-emitting states on the "
+LEVEL_TEXT = ("{Q} (quick) / {T} (thorough) operation histories; every reported best path (~2 per history, ~6 states each, non-emitting states on the "
               "path in a measured fraction) is re-scored with the documented model and compared on logprob, length and carried distances. Held-on-observed.")
 LEVEL_NOTE = "Trusted: rescoring.py (written from the doc-strings; validated by mutants: min->sum, wrong noise, forgotten d_s/d_o, stale predecessor)."
